@@ -22,11 +22,122 @@ class AnalysisError(Exception):
         self.anchor = anchor
 
 
+import builtins as _builtins
+
+_BUILTIN_NAMES = set(dir(_builtins))
+
+
+def _scope_info(node: ast.AST) -> tuple[set, set]:
+    """(locals, fixed) for the code under `node`: locals = names bound inside it that are not parameters;
+    fixed = parameters and names that are only read (globals, builtins, imported names)."""
+    stored, loaded, params = set(), set(), set()
+    for n in ast.walk(node):
+        if isinstance(n, ast.Name):
+            (stored if isinstance(n.ctx, (ast.Store, ast.Del)) else loaded).add(n.id)
+        elif isinstance(n, ast.arg):
+            params.add(n.arg)
+        elif isinstance(n, ast.ExceptHandler) and n.name:
+            stored.add(n.name)
+        elif isinstance(n, (ast.Global, ast.Nonlocal)):
+            params.update(n.names)
+        elif isinstance(n, (ast.FunctionDef, ast.AsyncFunctionDef, ast.ClassDef)) and n is not node:
+            params.add(n.name)
+    locals_ = stored - params
+    fixed = params | (loaded - locals_) | _BUILTIN_NAMES
+    return locals_, fixed
+
+
+def _match(pat: ast.AST, code: ast.AST, locals_: set, fixed: set, env: dict) -> bool:
+    """Structural equality of two ASTs where a pattern Name that is not a fixed name of the code's scope may stand for
+    any local of the code (consistently)."""
+    if isinstance(pat, ast.Name) and isinstance(code, ast.Name):
+        if pat.id == code.id:
+            return env.setdefault(pat.id, code.id) == code.id
+        if pat.id in fixed or code.id not in locals_:
+            return False
+        if pat.id in env:
+            return env[pat.id] == code.id
+        if code.id in env.values():
+            return False
+        env[pat.id] = code.id
+        return True
+    if type(pat) is not type(code):
+        return False
+    if isinstance(pat, ast.ExceptHandler):
+        if (pat.name is None) != (code.name is None):
+            return False
+        if pat.name is not None and not _match(ast.Name(id=pat.name, ctx=ast.Store()), ast.Name(id=code.name, ctx=ast.Store()), locals_, fixed, env):
+            return False
+    for field in pat._fields:
+        if field in ("ctx", "type_comment", "lineno", "col_offset", "end_lineno", "end_col_offset", "kind"):
+            continue
+        if isinstance(pat, ast.ExceptHandler) and field == "name":
+            continue
+        a, b = getattr(pat, field, None), getattr(code, field, None)
+        if isinstance(a, list):
+            if not isinstance(b, list) or len(a) != len(b):
+                return False
+            for x, y in zip(a, b):
+                if isinstance(x, ast.AST):
+                    if not _match(x, y, locals_, fixed, env):
+                        return False
+                elif x != y:
+                    return False
+        elif isinstance(a, ast.AST):
+            if not isinstance(b, ast.AST) or not _match(a, b, locals_, fixed, env):
+                return False
+        elif a != b:
+            return False
+    return True
+
+
+class SrcText(str):
+    """Normalised source text of a node.  `fragment in text` first tries the literal text, then a structural match in
+    which the fragment's local variable names are metavariables (so a consistent rename of locals does not matter)."""
+
+    node: Optional[ast.AST] = None
+
+    def __new__(cls, text: str, node: Optional[ast.AST] = None):
+        o = super().__new__(cls, text)
+        o.node = node
+        return o
+
+    def __contains__(self, frag) -> bool:  # type: ignore[override]
+        if str.__contains__(self, frag):
+            return True
+        if self.node is None or not isinstance(frag, str) or not frag.strip():
+            return False
+        return structurally_contains(self.node, frag)
+
+
+def structurally_contains(node: ast.AST, frag: str, env: Optional[dict] = None) -> bool:
+    try:
+        ptree = ast.parse(frag)
+    except SyntaxError:
+        return False
+    if len(ptree.body) != 1:
+        return False
+    pat: ast.AST = ptree.body[0]
+    if isinstance(pat, ast.Expr):
+        pat = pat.value
+    if isinstance(pat, (ast.Name, ast.Constant)):
+        return False  # a bare identifier is only ever matched literally
+    locals_, fixed = _scope_info(node)
+    for n in ast.walk(node):
+        if type(n) is type(pat):
+            e = dict(env or {})
+            if _match(pat, n, locals_, fixed, e):
+                if env is not None:
+                    env.update(e)
+                return True
+    return False
+
+
 def src(node: Optional[ast.AST]) -> str:
-    """Normalised source text of a node (formatting-independent)."""
+    """Normalised source text of a node (formatting-independent); see SrcText for the meaning of `in`."""
     if node is None:
-        return ""
-    return ast.unparse(node)
+        return SrcText("")
+    return SrcText(ast.unparse(node), node)
 
 
 def dotted(node: ast.AST) -> Optional[str]:
@@ -134,6 +245,14 @@ class Module:
             self.tree = ast.parse(self.text, filename=self.path)
         except SyntaxError as e:
             raise AnalysisError(f"cannot parse {rel}: {e}", anchor=rel)
+        self.renamed_back = 0
+        if os.environ.get("VERIF_NO_NORMALISE") != "1":
+            from . import normalize
+
+            try:
+                self.renamed_back = normalize.normalise_module(rel, self.tree)
+            except RecursionError:
+                self.renamed_back = 0
         self.funcs: dict[str, ast.AST] = {}
         self.classes: dict[str, ast.ClassDef] = {}
         self.parent: dict[ast.AST, ast.AST] = {}
